@@ -60,7 +60,7 @@ def io_to_coq(e):
 
 def case_to_coq(c):
     return "{| n_cap := %s; n_obs := %s; n_pipes := %s |}" % (
-        nat(c["backlog"]), core.coq_list([obs_to_coq(o) for o in c["obs"]]),
+        nat(c["backlog"]), core.coq_list([obs_to_coq(o) for o in (c.get("obs") or [])]),
         core.coq_list([core.coq_list([io_to_coq(e) for e in p]) for p in (c.get("pipes") or []) if p]))
 
 
@@ -135,11 +135,56 @@ def crash_failures(out):
     return fs
 
 
+def func_body(src, header):
+    i = src.find(header)
+    if i < 0:
+        return None
+    j = src.find("\n}\n", i)
+    return src[i:j] if j > 0 else None
+
+
+def source_frame_check():
+    """Translator-style check of the frame property the duplex theorems rest on (C19_io_read_frame /
+    C19_io_write_frame): in the CURRENT source the copy-read path mentions only the receive buffer and the
+    copy-write path only the send buffer.  Returns a list of violations (strings)."""
+    bad = []
+    try:
+        st = open(os.path.join(core.REPO, "stream.go")).read()
+        bf = open(os.path.join(core.REPO, "buffer.go")).read()
+    except OSError as ex:
+        return ["cannot read the source: %s" % ex]
+    def sel(body, recv):
+        return set(re.findall(r"\b%s\.(\w+)" % recv, body or ""))
+    checks = [
+        (st, "func (s *Stream) copyRead(", "s", {"recvBuf"}),
+        (st, "func (s *Stream) copyWriteAndFlush(", "s", {"sendBuf"}),
+        (bf, "func (l *linkedBuffer) read(", "l.stream", {"readMore"}),
+        (bf, "func (l *linkedBuffer) copyWriteAndFlush(", "l.stream", {"Flush"}),
+    ]
+    for src, hdr, recv, allowed in checks:
+        body = func_body(src, hdr)
+        if body is None:
+            bad.append("cannot find %s" % hdr)
+            continue
+        extra = sel(body.split("{", 1)[1], re.escape(recv)) - allowed
+        if extra:
+            bad.append("%s...) touches %s besides %s" % (hdr, sorted(extra), sorted(allowed)))
+    for hdr, forbidden in (("func (s *Stream) Flush(", "recvBuf"), ("func (s *Stream) readMore(", "sendBuf")):
+        body = func_body(st, hdr)
+        if body is None:
+            bad.append("cannot find %s" % hdr)
+        elif forbidden in body:
+            bad.append("%s...) mentions %s" % (hdr, forbidden))
+    return bad
+
+
 def check(run):
     data, gerr = gen.regenerate()
     if gerr:
         run.add_corr_break("G: " + gerr)
     run.proof = core.proof_step(PROP, run.tier)
+    for v in source_frame_check():
+        run.add_corr_break("G: frame property of Read/Write (C19_io_read_frame / _write_frame) not matched by the source: " + v)
     n = 40 if run.tier == "quick" else 1200
     cases, err, out = run_harness(n, run.seed, run.tier)
     if err:
@@ -161,7 +206,7 @@ def check(run):
         for f in fs:
             feats[f] = feats.get(f, 0) + 1
         if fs - {"accept", "read"}:
-            distinct.add(json.dumps([c["backlog"], c["obs"]]))
+            distinct.add(json.dumps([c["backlog"], c.get("obs"), c.get("script")]))
     if cases and skipped > len(cases) // 3:
         run.add_corr_break("T: %d of %d scenarios could not be set up (machine overloaded?)" % (skipped, len(cases)))
     if usable:
@@ -187,7 +232,7 @@ def check(run):
                 "listener Close at a random moment, client session death); non-trivial = exercises more than a plain accept+read; distinct by (backlog, observed history)",
         "samples": [{"backlog": c["backlog"], "script": c["script"], "obs": c["obs"]} for c in usable[2:4]],
         "features": feats, "io_events_replayed_through_lb_read": nio,
-        "observations_accepted_by_model": sum(len(c["obs"]) for c in usable),
+        "observations_accepted_by_model": sum(len(c.get("obs") or []) for c in usable),
     })
     run.assumptions += [
         "goroutines parked in wg.Wait / select / Accept are scheduled once enabled (Go runtime; observed within generous bounds, not proved)",
